@@ -329,4 +329,62 @@ example : encOER (.setOf (.integer .varS)) (.list [.int 2, .int 1]) = some [1, 2
 example : encOER (.bits (some 9)) (.bits [0xff, 0x80] 7) = some [0xff, 0x80] := by decide +kernel
 example : encOER (.seq [] [] true [] []) (.seq []) = some [0] := by decide +kernel
 
+/-! ## SET OF: the canonical order (X.696 §19 = X.690 §11.6) makes the encoding independent of the storage order
+    (finding F55, repaired: `SET_OF_encode_oer` sorts the element encodings, so C = this reference on SET OF) -/
+
+theorem mapEnc_some_cons (f : Val → Option Bytes) (v : Val) (vs : List Val) (bs : List Bytes)
+    (h : mapEnc f (v :: vs) = some bs) : ∃ b bs', f v = some b ∧ mapEnc f vs = some bs' ∧ bs = b :: bs' := by
+  simp only [mapEnc] at h
+  cases hb : f v with
+  | none => simp [hb] at h
+  | some b =>
+    cases hr : mapEnc f vs with
+    | none => simp [hb, hr] at h
+    | some bs' =>
+      simp only [hb, hr, Option.some.injEq] at h
+      exact ⟨b, bs', rfl, rfl, h.symm⟩
+
+theorem mapEnc_perm (f : Val → Option Bytes) {vs₁ vs₂ : List Val} (hp : vs₁.Perm vs₂) :
+    ∀ bs₁, mapEnc f vs₁ = some bs₁ → ∃ bs₂, mapEnc f vs₂ = some bs₂ ∧ bs₁.Perm bs₂ := by
+  induction hp with
+  | nil => intro bs₁ h; exact ⟨bs₁, h, List.Perm.refl _⟩
+  | cons v _ ih =>
+    intro bs₁ h
+    obtain ⟨b, bs', hb, hbs, rfl⟩ := mapEnc_some_cons f v _ bs₁ h
+    obtain ⟨bs₂, h2, hperm⟩ := ih bs' hbs
+    exact ⟨b :: bs₂, by simp [mapEnc, hb, h2], List.Perm.cons b hperm⟩
+  | swap a b l =>
+    intro bs₁ h
+    obtain ⟨x, bs', hx, hbs, rfl⟩ := mapEnc_some_cons f b _ bs₁ h
+    obtain ⟨y, bs'', hy, hbs', rfl⟩ := mapEnc_some_cons f a _ bs' hbs
+    exact ⟨y :: x :: bs'', by simp [mapEnc, hx, hy, hbs'], List.Perm.swap y x bs''⟩
+  | trans _ _ ih1 ih2 =>
+    intro bs₁ h
+    obtain ⟨bs₂, h2, hp2⟩ := ih1 bs₁ h
+    obtain ⟨bs₃, h3, hp3⟩ := ih2 bs₂ h2
+    exact ⟨bs₃, h3, hp2.trans hp3⟩
+
+/-- **canonical OER SET OF**: the encoding does not depend on the order in which the elements are stored -/
+theorem encOER_setOf_perm (e : OTy) (vs₁ vs₂ : List Val) (hp : vs₁.Perm vs₂) :
+    encOER (.setOf e) (.list vs₁) = encOER (.setOf e) (.list vs₂) := by
+  simp only [encOER]
+  cases h1 : mapEnc (encOER e) vs₁ with
+  | none =>
+    cases h2 : mapEnc (encOER e) vs₂ with
+    | none => rfl
+    | some bs₂ =>
+      obtain ⟨bs₁, h1', _⟩ := mapEnc_perm (encOER e) hp.symm bs₂ h2
+      rw [h1] at h1'; cases h1'
+  | some bs₁ =>
+    obtain ⟨bs₂, h2, hperm⟩ := mapEnc_perm (encOER e) hp bs₁ h1
+    rw [h2]
+    simp only [hp.length_eq]
+    rw [sortBy_perm_eq bytesLe bytesLe_total bytesLe_trans bytesLe_antisymm _ _ hperm]
+
+/-- the former witness of finding F55, `T ::= SET OF INTEGER`: {2, 1} and {1, 2} both encode as 01 02 01 01 01 02 -/
+theorem ref_F55_witness :
+    encOER (.setOf (.integer .varS)) (.list [.int 2, .int 1]) = some [1, 2, 1, 1, 1, 2] ∧
+    encOER (.setOf (.integer .varS)) (.list [.int 1, .int 2]) = some [1, 2, 1, 1, 1, 2] := by
+  decide +kernel
+
 end Asn1c.Props.C02Oer
